@@ -695,6 +695,13 @@ func (s *scanner) stateAnyAnnotationStart(c byte) (st state, err error) {
 }
 
 func (s *scanner) stateInlineAnnotation(c byte) (state, error) {
+	if bytes.IsNewLine(c) {
+		// An empty comment ("//" at the end of a line) ends here: the next line
+		// is not its text.
+		s.found(lexeme.InlineAnnotationTextBegin)
+		s.step = s.stateInlineAnnotationText
+		return s.step(c)
+	}
 	if bytes.IsBlank(c) {
 		return scanSkip, nil
 	}
